@@ -22,14 +22,15 @@ RULE = ("seeded histories over 2-4 objects on one resource and up to 4 retained 
         "its position ever since, not re-targeted through its own parent object). distinct = case hash; "
         "non-trivial = ops issued through >= 2 different handles incl. >= 1 retained child.")
 ASSUMPTIONS = ["Redis/MongoDB/Zarr are in-process fakes"]
-STRATA = ["clean", "child_clear_reset", "collide"]
-PER = {"quick": {"clean": 250, "child_clear_reset": 200, "collide": 40},
-       "thorough": {"clean": 1200, "child_clear_reset": 800, "collide": 150}}
+STRATA = ["clean", "child_clear_reset", "collide", "io_fault"]
+PER = {"quick": {"clean": 250, "child_clear_reset": 200, "collide": 40, "io_fault": 150},
+       "thorough": {"clean": 1200, "child_clear_reset": 800, "collide": 150, "io_fault": 800}}
 STEPS = {"quick": 30, "thorough": 50}
 
 
 def plan(tier, seed):
-    return common.plan_grid(tier, seed, common.class_cfgs(all_cfgs=False), PER, STRATA, pieces=4)
+    specs = common.plan_grid(tier, seed, common.class_cfgs(all_cfgs=False), PER, STRATA, pieces=4)
+    return [s for s in specs if s["stratum"] != "io_fault" or catalog.info(s["cls"]).backend == "json"]
 
 
 def build(spec, i, tag, p_read=0.3, outside=False):
@@ -44,7 +45,7 @@ def build(spec, i, tag, p_read=0.3, outside=False):
         ms.add_root(h, 0)
     next_id = n_roots
     steps = []
-    with_cr = spec["stratum"] == "child_clear_reset"
+    with_cr = spec["stratum"] in ("child_clear_reset", "io_fault")
     base_filter = None if with_cr or spec["stratum"] == "collide" else "no_child_cr"
     n = STEPS[spec["tier"]]
     last_writer = None
@@ -106,6 +107,20 @@ def build(spec, i, tag, p_read=0.3, outside=False):
             steps.append(st)
             if _m.is_mutator(st["op"]):
                 last_writer = H.root
+    if spec["stratum"] == "io_fault":
+        # idempotent mutators are first issued with an injected I/O fault (EIO at the j-th file-system event of
+        # the call: during the load or during the save) and then re-issued cleanly: a failed call through one
+        # handle must not make later calls through that handle (or its children) clobber other handles' writes
+        idem = {"setitem", "update", "setdefault", "reset", "clear"}
+        out = []
+        for st in steps:
+            if "op" in st and st["op"] in idem and not (st["op"] == "setitem" and isinstance(st["args"][0], dict)) \
+                    and r.random() < 0.4:
+                f = dict(st)
+                f["fault"] = {"eio": r.choice([1, 1, 2, 3, 4])}
+                out.append(f)
+            out.append(st)
+        steps = out
     case = {"cls": info.name, "cfg": spec["cfg"], "res": [init], "roots": roots, "steps": steps,
             "stratum": spec["stratum"], "oracle": {"results": True, "resource_strict": True}}
     if outside:
